@@ -288,7 +288,7 @@ func Harness_C05_q_multi_frame_message() {
 			if i == which {
 				// representative positions: first / middle / last ciphertext byte, first / last tag
 				// byte (flips of the length field are explored with small frames elsewhere)
-				cands := []int{2, len(g) / 2, len(g) - 17, len(g) - 16, len(g) - 1}
+				cands := []int{0, 1, 2, len(g) / 2, len(g) - 17, len(g) - 16, len(g) - 1} // 0, 1: the length field
 				pos := cands[verif.Choice("flip-pos", len(cands))]
 				m := verif.U8("flip-mask")
 				verif.Assume(m != 0)
